@@ -1,29 +1,64 @@
 import GaeaVerif.Drv.InsSexp
 import GaeaVerif.Model.InsertPlan
+import GaeaVerif.Model.InsertStored
 /-
   Driver for C03 (INSERT / REPLACE on sharded and global tables).
-  Request: m (ins RULE SHARDCOL SEQ STMT)        s <same> <implementation output>
+  Request: m (ins RULE SHARDCOL SEQ STMT TYPE (fti (KEY PLACE)…))        s <same> <implementation output>
     RULE  (rule ks|mycat|global DB (slices…) (idxs…) (t2s (k v)…) (dbs…))
     SEQ   n | (seq PK START FAILAT|n (PLACE…))
-    STMT  (stmt VERB HASSELECT SETMODE (cols…) (rows (CELL…)…) (ondup…) SCHEMA TABLE)
-    CELL  (l TXTHEX PLACE) | n | nv | (x TXTHEX)       PLACE  <int> | e | p
-  Output: (ok (SLICE DB (TABLE-CHAIN) (cols…) (rows (CELLHEX…)…))…) sorted | err | panic
+    STMT  (stmt (x RULE SQLHEX FLAGS) HASSELECT SETMODE (cols…) (rows (CELL…)…) (ondup…) SCHEMA TABLE)
+    CELL  (l TXTHEX PLACE VAL) | n | nv | (x TXTHEX)       PLACE  <int> | e | p
+    VAL   (i N) | (u N) | (s HEX) | (o KIND)               KEY  (i N) | (u N) | (s HEX)
+    TYPE  the rule's GetType()
+    fti   FindTableIndex of the real rule on other spellings of the sharding values
+  Output: (ok (SLICE DB (TABLE-CHAIN) (cols…) (rows (CELLHEX…)…) FLAGS)…) sorted | err | panic
   Oracle: an accepted statement stores every row exactly once in the physical
           table its sharding value is placed in (every copy for a global
-          table); a statement with an unroutable row must not be accepted.
+          table); a statement with an unroutable row, with an assignment to the
+          sharding column in ON DUPLICATE KEY UPDATE or with a SELECT as its
+          source must not be accepted; the sharding value is an integer or a
+          string literal, and the table it is placed in is the one
+          FindTableIndex gives for the value a column of the other type holds
+          for it (`InsertStored.storedKeys`, looked up in `fti`).  For hash and
+          mod rules the placements the harness reports are compared with the
+          Lean model of HashShard / ModShard (the theorems of Props/C03.lean
+          about these two are about that model).
 -/
 namespace GaeaVerif.Drv.C03
-open GaeaVerif GaeaVerif.Layout GaeaVerif.Insert GaeaVerif.Drv.Ins
+open GaeaVerif GaeaVerif.Layout GaeaVerif.Insert GaeaVerif.Drv.Ins GaeaVerif.InsertStored
+open GaeaVerif.ShardPlace (Key)
 
 def place? : Sexp → Option Place
   | .atom "e" => some .err
   | .atom "p" => some .panic
   | e => e.asInt?.map .ok
 
+def bytes? (e : Sexp) : Option ShardGo.GoStr := e.asBytes?.map fun b => b.map (·.toNat)
+
+def litVal? : Sexp → Option LitVal
+  | .list [.atom "i", n] => n.asInt?.map .int
+  | .list [.atom "u", n] => n.asNat?.map .uint
+  | .list [.atom "s", h] => (bytes? h).map .str
+  | .list [.atom "o", _] => some .other
+  | _ => none
+
+def key? : Sexp → Option Key
+  | .list [.atom "i", n] => n.asInt?.map .int64
+  | .list [.atom "u", n] => n.asNat?.map .uint64
+  | .list [.atom "s", h] => (bytes? h).map .str
+  | _ => none
+
+def fti? : Sexp → Option (List (Key × Place))
+  | .list (.atom "fti" :: es) => es.mapM fun e =>
+      match e with
+      | .list [k, p] => do pure ((← key? k), (← place? p))
+      | _ => none
+  | _ => none
+
 def cell? : Sexp → Option Cell
   | .atom "n" => some .null
   | .atom "nv" => some .nextval
-  | .list [.atom "l", t, p] => do pure (.lit (← t.asText?) (← place? p))
+  | .list [.atom "l", t, p, v] => do pure (.lit (← t.asText?) (← litVal? v) (← place? p))
   | .list [.atom "x", t] => do pure (.expr (← t.asText?))
   | _ => none
 
@@ -37,27 +72,33 @@ def seq? : Sexp → Option (Option Seq)
   | _ => none
 
 def stmt? : Sexp → Option Stmt
-  | .list [.atom "stmt", _, sel, set, cols, .list rows, ondup, schema, table] => do
+  | .list [.atom "stmt", x, sel, set, cols, .list rows, ondup, schema, table] => do
       let rs ← rows.mapM fun r =>
         match r with
         | .list cs => cs.mapM cell?
         | _ => none
+      let flags ← match x with
+        | .list [_, _, _, .atom f] => some f
+        | _ => none
       pure { hasSelect := (← sel.asBool?), setMode := (← set.asBool?), cols := (← idents? cols), rows := rs,
-             onDup := (← idents? ondup), schema := (← ident? schema), table := (← ident? table) }
+             onDup := (← idents? ondup), schema := (← ident? schema), table := (← ident? table), flags := flags }
   | _ => none
 
 structure Input where
   rule : TableRule
   seq : Option Seq
   stmt : Stmt
+  /-- `FindTableIndex` of the real rule on other spellings of the sharding values -/
+  fti : List (Key × Place)
 
 def input? : Sexp → Option Input
-  | .list [.atom "ins", r, sc, sq, st] => do
-      pure { rule := { layout := (← rule? r), shardCol := (← ident? sc) }, seq := (← seq? sq), stmt := (← stmt? st) }
+  | .list [.atom "ins", r, sc, sq, st, ty, ft] => do
+      pure { rule := { layout := (← rule? r), shardCol := (← ident? sc), ruleType := (← ident? ty) },
+             seq := (← seq? sq), stmt := (← stmt? st), fti := (← fti? ft) }
   | _ => none
 
 def cellText : Cell → String
-  | .lit t _ => t
+  | .lit t _ _ => t
   | .null => "NULL"
   | .nextval => "NEXTVAL()"
   | .expr t => t
@@ -66,7 +107,8 @@ def showRow (r : Row) : String := "(" ++ " ".intercalate (r.map fun c => textToH
 
 def showEntry (t : Target Out) : String :=
   "(" ++ showIdent t.slice ++ " " ++ showIdent t.db ++ " " ++ showChain t.sql.table ++
-  " (" ++ " ".intercalate (t.sql.cols.map showIdent) ++ ") (" ++ " ".intercalate (t.sql.rows.map showRow) ++ "))"
+  " (" ++ " ".intercalate (t.sql.cols.map showIdent) ++ ") (" ++ " ".intercalate (t.sql.rows.map showRow) ++ ") " ++
+  t.sql.flags ++ ")"
 
 def showOut : R (List (Target Out)) → String
   | .ok ts => "(ok" ++ String.join ((sortStrings (ts.map showEntry)).map (" " ++ ·)) ++ ")"
@@ -82,20 +124,73 @@ structure Obs where
   table : List String
   cols : List String
   rows : List (List String)
+  flags : String
   deriving BEq
 
 def obs? : Sexp → Option Obs
-  | .list [sl, db, tb, cols, .list rows] => do
+  | .list [sl, db, tb, cols, .list rows, .atom flags] => do
       let rs ← rows.mapM fun r =>
         match r with
         | .list cs => cs.mapM Sexp.asText?
         | _ => none
-      pure { slice := (← ident? sl), db := (← ident? db), table := (← idents? tb), cols := (← idents? cols), rows := rs }
+      pure { slice := (← ident? sl), db := (← ident? db), table := (← idents? tb), cols := (← idents? cols), rows := rs,
+             flags := flags }
   | _ => none
 
 def routable : Option Cell → Option Int
-  | some (.lit _ (.ok i)) => some i
+  | some (.lit _ _ (.ok i)) => some i
   | _ => none
+
+def litOf : Option Cell → Option (LitVal × Place)
+  | some (.lit _ v p) => some (v, p)
+  | _ => none
+
+def toPlace : ShardPlace.Out Int → Place
+  | .ok i => .ok i
+  | .err _ => .err
+  | .panic => .panic
+
+/-- the Lean model of the `hash` and `mod` rules, where the rule is one of them
+    (`KeyError` panics of `NumValue` reach the harness as panics) -/
+def ksModel (inp : Input) : Option (Key → Place) :=
+  let n := inp.rule.layout.t2s.length
+  if inp.rule.ruleType == "hash" then
+    some fun k => match HashShard.FindForKey n k with
+      | .ok i => .ok i
+      | _ => .panic
+  else if inp.rule.ruleType == "mod" then
+    some fun k => match ModShard.FindForKey n k with
+      | .ok i => .ok i
+      | _ => .panic
+  else none
+
+/-- does the reported placement differ from the Lean model of the rule? -/
+def ksDiffers (inp : Input) (s : Stmt) (sci : Nat) : Bool :=
+  match ksModel inp with
+  | none => false
+  | some f =>
+    inp.fti.any (fun kp => f kp.1 != kp.2) ||
+    s.rows.any fun r =>
+      match litOf r[sci]? with
+      | some (.other, _) => false
+      | some (v, p) => f (keyOf v) != p
+      | none => false
+
+/-- the class of a row stored in table `i` although `FindTableIndex` sends a
+    value the backend holds for its sharding literal to another table -/
+def storedElsewhere (inp : Input) (v : LitVal) (i : Int) : Option String :=
+  (storedKeys inp.rule.ruleType v).firstM fun k =>
+    match inp.fti.lookup k with
+    | none => some "fti-missing"
+    | some (.ok j) =>
+      if j = i then none
+      else match v with
+        | .str _ =>
+          if inp.rule.ruleType == "mycat_murmur" || inp.rule.ruleType == "mycat_string" then
+            some "mycat-numeric-string-hashed-as-text"
+          else some "numeric-string-not-placed-as-number"
+        | _ => some "integer-not-placed-as-its-digits"
+    | some _ => none
 
 /-- the physical table of index `i`: slice, database and table chain, as the
     layout functions of the rule name them -/
@@ -119,11 +214,12 @@ def oracle (inp : Input) (out : Sexp) : String :=
       | .fail => "ok"
       | .panic => "ok"
       | .ok s =>
-        if inp.rule.layout.kind = .global then
+        if inp.stmt.hasSelect then "viol insert-select-accepted"
+        else if inp.rule.layout.kind = .global then
           -- every copy receives the whole statement, once
           let want := inp.rule.layout.idxs.filterMap fun i =>
             (physical inp i).map fun (sl, db, tb) =>
-              ({ slice := sl, db := db, table := tb, cols := s.cols, rows := s.rows.map rowTexts } : Obs)
+              ({ slice := sl, db := db, table := tb, cols := s.cols, rows := s.rows.map rowTexts, flags := s.flags } : Obs)
           if want.length != inp.rule.layout.idxs.length then "ok"
           else if sameMultiset want obs then "ok"
           else if want.any (fun w => !obs.contains w) then "viol global-copy-missed"
@@ -135,7 +231,12 @@ def oracle (inp : Input) (out : Sexp) : String :=
             -- a row with another number of values than columns cannot be stored by any backend (MySQL error 1136)
             if !s.setMode && s.rows.any (fun r => r.length != s.cols.length) then "viol ragged-row-accepted"
             else if s.rows.any (fun r => (routable r[sci]?).isNone) then "viol unroutable-sharding-value-accepted"
+            else if s.onDup.contains inp.rule.shardCol then "viol ondup-assigns-sharding-column"
+            else if s.rows.any (fun r => match litOf r[sci]? with | some (.other, _) => true | _ => false) then
+              "viol literal-placed-by-its-sql-text"
+            else if ksDiffers inp s sci then "viol hash-or-mod-placement-differs-from-model"
             else if obs.any (fun o => o.cols != s.cols) then "viol column-list-changed"
+            else if obs.any (fun o => o.flags != s.flags) then "viol statement-kind-changed"
             else
               let allOut := obs.flatMap (·.rows)
               let allIn := s.rows.map rowTexts
@@ -153,7 +254,17 @@ def oracle (inp : Input) (out : Sexp) : String :=
                       let here := (obs.filter fun o => o.slice == sl && o.db == db && o.table == tb).flatMap (·.rows)
                       let want := (s.rows.filter fun r' => routable r'[sci]? == some i).map rowTexts
                       !sameMultiset here want
-                if bad then "viol row-in-wrong-table" else "ok"
+                if bad then "viol row-in-wrong-table"
+                else
+                  -- the table is the one of the value the backend holds for the literal
+                  let elsewhere := s.rows.filterMap fun r =>
+                    match litOf r[sci]? with
+                    | some (v, .ok i) => storedElsewhere inp v i
+                    | _ => none
+                  match elsewhere.find? (· != "mycat-numeric-string-hashed-as-text"), elsewhere with
+                  | some c, _ => "viol " ++ c
+                  | none, c :: _ => "viol " ++ c
+                  | none, [] => "ok"
   | _ => "viol unexpected-output"
 
 def handle (args : List Sexp) : String :=
@@ -162,7 +273,7 @@ def handle (args : List Sexp) : String :=
     match input? req with
     | none => "bad-input"
     | some inp =>
-      let out := showOut (handleInsertStmt false inp.rule inp.seq inp.stmt)
+      let out := showOut (handleInsertStmt head inp.rule inp.seq inp.stmt)
       match Sexp.parseLine out with
       | some [o] => out ++ " | " ++ oracle inp o
       | _ => out
